@@ -31,7 +31,9 @@ ASSUMPTIONS = ["stream ids are never registered while still established (http2Cl
                "x/net/http2 Framer writes the frame it is asked to write (frames are re-decoded by an independent Framer instance)"]
 RULE = ("seeded random walks over all control-item kinds (6 profiles: mixed, window-starved, settings storms, trailers, big messages, control frames), "
         "1-6 concurrent streams, message sizes around 0/5/16379/16384/16385/65535/1MiB, WINDOW_UPDATE increments incl. 0, 2^31-1, 2^32-1, "
-        "SETTINGS_INITIAL_WINDOW_SIZE incl. 0 and lowering below bytes in flight, ~35% undisciplined histories, plus 14 hand-written corner cases; "
+        "SETTINGS_INITIAL_WINDOW_SIZE incl. 0 and lowering below bytes in flight, "
+        "response HEADERS / trailers / data / window updates addressed at any time to live, finished, cleaned-up and never-registered streams, a directed after-close family (every item kind after every way a stream can end in the writer: cleanupStream with/without RST_STREAM, trailers at once / behind data / starved then reset, client END_STREAM then cleanup), "
+        "~35% undisciplined histories, plus 16 hand-written corner cases; "
         "a case is non-trivial when the real writer emitted DATA and at least one stream had to wait for stream quota")
 
 
